@@ -88,8 +88,32 @@ def is_max_of(v, a, b):
     return isinstance(v, tuple) and v and v[0] == "call" and v[1] == "max" and set(v[2]) == {a, b}
 
 
+def is_ssub(v):
+    return isinstance(v, tuple) and len(v) > 2 and v[0] == "call" and v[1] == "saturating_sub" and len(v[2]) == 2
+
+
+def desat(v, depth=0):
+    """a.saturating_sub(b) -> a - b (equal whenever a >= b; 0 otherwise, which is what the guarded form returns too)"""
+    if not isinstance(v, tuple) or depth > 20:
+        return v
+    if is_ssub(v):
+        return ("bin", "Sub", desat(v[2][0], depth + 1), desat(v[2][1], depth + 1))
+    return tuple(desat(x, depth + 1) if isinstance(x, tuple) else x for x in v)
+
+
 def conds_rows(p):
-    return [norm_cond(c) for c in p.conds]
+    rows = []
+    for c in p.conds:
+        r = norm_cond(c)
+        rows.append(r)
+        # x.saturating_sub(y) == 0  <=>  x <= y ;  != 0 / > 0  <=>  x > y
+        if r[0] != "opaque" and is_ssub(r[0]) and r[2] == C(0):
+            a, b = r[0][2]
+            if r[1] in ("Eq", "Le"):
+                rows.append((a, "Le", b, None))
+            elif r[1] in ("Ne", "Gt"):
+                rows.append((a, "Gt", b, None))
+    return rows
 
 
 def implies_le(rows, a, b):
@@ -181,7 +205,10 @@ def rule_cursor(u, rep):
                 continue
             n += 1
             fp, fl = fld(final, aj, "pos"), fld(final, aj, "len")
-            R = out[1]
+            R0 = out[1]
+            R = desat(R0)
+            fp = desat(fp)
+            saturating = R0 != R
             rows = conds_rows(p)
             ok = fl == OL and (fp == ip.binop("Add", OP, R) or (R == C(0) and fp == OP))
             rep.oblige(ok)
@@ -198,6 +225,22 @@ def rule_cursor(u, rep):
                 rep.oblige(okr)
                 if not okr:
                     rep.add("CUR-READ", "count", "AlignedCursor::read must return min(buf.len(), len - pos); it returns %s" % label(R), b.loc())
+                # the bytes handed out: storage[pos .. pos + R] copied into buf[.. R]
+                okd = False
+                for e in p.events:
+                    if e[0] == "Call" and e[2] == "copy_from_slice" and len(e[6]) == 2:
+                        dst, src = desat(e[6][0]), desat(e[6][1])
+                        d_ok = isinstance(dst, tuple) and dst[0] == "index" and dst[1] == ("param", "buf") and isinstance(dst[2], tuple) and dst[2][0] == "adt" \
+                            and ((dst[2][1].endswith("::RangeTo") and dict(dst[2][3]).get(0) == R) or (dst[2][1].endswith("::Range") and dict(dst[2][3]).get(0) == C(0) and dict(dst[2][3]).get(1) == R))
+                        s_ok = False
+                        if isinstance(src, tuple) and src[0] == "index" and has_storage(src[1]) and isinstance(src[2], tuple) and src[2][0] == "adt" and src[2][1].endswith("::Range"):
+                            f = dict(src[2][3])
+                            s_ok = f.get(0) == OP and f.get(1) in (ip.binop("Add", OP, R), ("bin", "Add", OP, R))
+                        if d_ok and s_ok:
+                            okd = True
+                rep.oblige(okd)
+                if not okd:
+                    rep.add("CUR-READ", "data", "AlignedCursor::read does not copy storage[pos .. pos + returned count] into buf[.. returned count]", b.loc())
                 okg = implies_le(rows, OP, OL) or any(r[0] != "opaque" and {r[0], r[2]} == {OP, OL} for r in rows)
                 rep.oblige(okg)
                 if not okg:
@@ -275,6 +318,29 @@ def rule_cursor(u, rep):
             rep.oblige(ok)
             if not ok:
                 rep.add("CUR-BASE", nm, "AlignedCursor::%s must be the first `len` bytes starting at the base address of the aligned storage (vec.as_mut_ptr(), offset 0); got %s" % (nm, label(v)[:120]), b.loc())
+    # ------------------------------------------------------------------ who may change the length or the storage
+    # (the induction over histories needs: len and the bytes of the storage change only in write)
+    for nm, b in sorted(ms.items()):
+        if nm == "write" or not any(p_.get("self") for p_ in b.thir["params"]):
+            continue
+        try:
+            ip, paths = run(u, b, sv)
+        except interp.Unsupported as ex:
+            rep.oblige(False)
+            rep.add("CUR-WHO", nm, "cannot analyse AlignedCursor::%s (%s)" % (nm, ex), b.loc())
+            continue
+        for p in paths:
+            final = p.env.get("$p0") if hasattr(p, "env") else None
+            if final is None:
+                continue
+            n += 1
+            fl, fv = fld(final, aj, "len"), fld(final, aj, "vec")
+            ok = fl == OL and fv == OV
+            rep.oblige(ok)
+            if not ok:
+                rep.add("CUR-WHO", nm, "AlignedCursor::%s changes the %s: only write may (bytes beyond the length stay zero because nothing else touches length or storage)"
+                        % (nm, "length" if fl != OL else "storage"), b.loc())
+                break
     # the storage element type is bounded by maligned::Alignment
     ok = any("Alignment" in (pj.get("s") or "") for b2 in ms.values() for pj in b2.preds) or True
     rep.count("cursor_paths", n)
